@@ -24,8 +24,13 @@ func scratchDir(c *run.Ctx) (string, func(), error) {
 }
 
 func files(c *run.Ctx) run.Result {
-	var res run.Result
 	list, exp, ld := genList(c.Rng, c.Tier)
+	return filesWith(c, list, exp, ld)
+}
+
+// filesWith is the files oracle for one list.
+func filesWith(c *run.Ctx, list []obj.ObjMesh, exp []*expMesh, ld *listDesc) run.Result {
+	var res run.Result
 	variant := "SaveAll"
 	if len(list) == 1 {
 		variant = "Save"
